@@ -256,6 +256,8 @@ def run(tier: str, replay: str | None = None):
     base_name, base_plan, base_out = results[0]
     base = dict(zip(base_plan, base_out["runs"]))
     differing = []  # (program, config, occurrence, diff)
+    known_hits = []
+    kf = lib.load_known_findings(PROP)["findings"]
     evaluations = 0
     for cname, plan, out in results:
         seen_count = {}
@@ -264,7 +266,13 @@ def run(tier: str, replay: str | None = None):
             occ = seen_count.get(pname, 0)
             seen_count[pname] = occ + 1
             if diags != base[pname]:
-                differing.append((pname, cname, occ, first_difference(base[pname], diags)))
+                fids = attribute_known(base[pname], diags, cfg_by_name[cname][3], kf)
+                if fids:
+                    for fid in fids:
+                        rep.known(fid, next(f["what"] for f in kf if f["id"] == fid))
+                    known_hits.append((pname, cname))
+                else:
+                    differing.append((pname, cname, occ, first_difference(base[pname], diags)))
 
     # 4. model correspondence on the unit cases
     unit_fail_inputs, corr_mismatch = [], []
@@ -316,7 +324,8 @@ def run(tier: str, replay: str | None = None):
     if proof is not None and not proof.ok and not found_input:
         detail = ""
         if gen is not None:
-            detail = unclassified_sites_hint(gen["Sites.v"])
+            detail = {"unclassified_sites": unclassified_sites_hint(gen["Sites.v"])}
+            detail.update(unclassified_state_hint(gen["State.v"]))
         rep.violation({"kind": "broken-obligation", "theorem": "; ".join(proof.broken), "log": proof.log[-1500:],
                        "hint": detail}, no_failing_input=True)
 
@@ -353,6 +362,7 @@ def run(tier: str, replay: str | None = None):
                             "unit_cases": {k: sum(1 for c in unit_cases if c[0] == k) for k in ("unite", "extra_kwargs", "or_constraint")}},
         sites_in_inventory=n_sites,
         differing_programs=len({d[0] for d in differing}),
+        known_finding_hits=len(known_hits),
         correspondence_mismatches=len(corr_mismatch),
         exhaustive=False,
     )
@@ -368,6 +378,48 @@ def run(tier: str, replay: str | None = None):
         ["Coq 8.16.1 kernel (coqc; vm_compute for the inventory obligations and model evaluation)", "translator harness/translate/sites.py",
          "audit table coq/theories/Det/Audit.v", "differential harness/c10.py + c10_worker.py", "CPython insertion-ordered dicts"],
     )
+
+
+def attribute_known(base, observed, shared_checker, findings):
+    """Attribute a difference from the isolated reference to the known findings of the unchanged
+    tree; returns the list of finding ids that explain it completely, or [] (= a violation).
+
+    C10-typed-value-str-slot: TypedValue.__str__ prints the TypeObject (suffix
+      " (Protocol with members ...)") only when the memo slot _type_object of that shared TypedValue
+      was filled by an earlier assignability check: texts differ by exactly such suffixes.
+    C10-protocol-positive-cache-key: an `incompatible_*` diagnostic that rests on a protocol member
+      disappears (a success recorded for Proto[A] is replayed for Proto[B]): the observed diagnostics
+      are the reference minus such diagnostics (what C10_keyed_memo_needs_determining_key predicts).
+    Both only under ONE Checker shared by several checks; the two effects may occur together."""
+    ids = {f["id"] for f in findings}
+    if not shared_checker or not isinstance(base, list) or not isinstance(observed, list):
+        return []
+    used = []
+    b, o = base, observed
+    if "C10-typed-value-str-slot" in ids:
+        strip = lambda ds: [[d[0], d[1], d[2], re.sub(r" \(Protocol with members [^)]*\)", "", d[3])] for d in ds]  # noqa: E731
+        sb, so = strip(b), strip(o)
+        if sb == so and b != o:
+            return ["C10-typed-value-str-slot"]
+        if sb != b or so != o:
+            used.append("C10-typed-value-str-slot")   # suffixes occur; the rest must be explained below
+        b, o = sb, so
+    if b == o:
+        return used
+    if "C10-protocol-positive-cache-key" not in ids or len(o) >= len(b):
+        return []
+    removed, j = [], 0
+    for d in b:
+        if j < len(o) and o[j] == d:
+            j += 1
+        else:
+            removed.append(d)
+    if j != len(o) or not removed:
+        return []
+    for d in removed:
+        if d[0] not in ("incompatible_argument", "incompatible_assignment", "incompatible_return_value") or "protocol member" not in d[3]:
+            return []
+    return used + ["C10-protocol-positive-cache-key"]
 
 
 def unclassified_sites_hint(gen_text):
@@ -389,3 +441,28 @@ def unclassified_sites_hint(gen_text):
         if "(" + line + "," not in audit:
             out.append(line)
     return out[:10]
+
+
+def unclassified_state_hint(gen_text):
+    """Name what is new in the state inventory: mutated module-/class-level objects and memoised
+    functions without an audit entry, cache key sites that are not pinned, and pinned sites
+    that disappeared (textual comparison with Det/StateAudit.v; only for the replay text)."""
+    audit = (lib.THEORIES / "Det" / "StateAudit.v").read_text()
+    new_state, new_keys = [], []
+    gen_rows = set()
+    for line in gen_text.splitlines():
+        line = line.strip().rstrip(";")
+        if line.startswith("StateItem ") and line.endswith(" true") and "(" + line + "," not in audit:
+            new_state.append(line)
+        if line.startswith("CacheKey "):
+            gen_rows.add(line)
+            if line not in audit:
+                new_keys.append(line)
+    gone = []
+    for line in audit.splitlines():
+        line = line.strip().rstrip(";")
+        if line.startswith("CacheKey ") and line not in gen_rows:
+            gone.append(line)
+    m = re.search(r"Definition resolution_key_fields[^\n]*", gen_text)
+    return {"unaudited_state": new_state[:10], "unpinned_cache_keys": new_keys[:10], "pinned_but_gone": gone[:10],
+            "resolution_key_fields": m.group(0)[-160:] if m else None}
